@@ -288,8 +288,8 @@ func H_C05_seqcrash() { c := vCase(); hC05seqcrash(c%4, (c/4)%3) }
 
 // H_C05_pick: the contract of pickForCompaction on a symbolic datalog state
 // (three segments; physical ids and sequence ids in every relative order by
-// case; sizes, dead-byte and delete-record counters fully symbolic; the
-// floating-point fragmentation test is abstracted to "may or may not pass"):
+// case; each segment below/above the size threshold and with fragmentation 0/1
+// by forked choice; delete-record counters fully symbolic):
 // the result is in strictly increasing sequence order, and whenever a picked
 // segment holds delete records every OLDER segment (by sequence id) is picked
 // too - otherwise compaction would drop a delete marker while an older segment
@@ -300,10 +300,18 @@ func H_C05_pick() {
 	db := &DB{opts: &Options{compactionMinSegmentSize: 1024, compactionMinFragmentation: 0.5}, datalog: &datalog{}}
 	var segs [3]*segment
 	for id := 0; id < 3; id++ {
-		sz := vU32("size")
-		vAssume(sz >= 512 && sz < 1<<20)
+		// size below / above the minimum, fragmentation 0 / 1 (forked: concrete
+		// floats, so that a counterexample replays exactly); delete-record counter symbolic
+		sz := uint32(512)
+		if vChoice("big", 2) == 1 {
+			sz = 2048
+		}
+		dead := uint32(0)
+		if vChoice("fragmented", 2) == 1 {
+			dead = sz
+		}
 		segs[id] = &segment{file: &file{size: int64(sz)}, id: uint16(id), sequenceID: seqs[id],
-			meta: &segmentMeta{DeletedBytes: vU32("deletedBytes"), DeleteRecords: vU32("deleteRecords"), Full: true}}
+			meta: &segmentMeta{DeletedBytes: dead, DeleteRecords: vU32("deleteRecords"), Full: true}}
 		db.datalog.segments[id] = segs[id]
 	}
 	picked := db.pickForCompaction()
